@@ -118,6 +118,23 @@ Definition s_step (st : sstate) (o : op) : sstate * nat :=
   | TakeColumn n =>
       if n <=? s_ncols st then (mkS (s_map st) (s_ncols st) (s_rows st) (s_ndets st) (s_handles st ++ [n]), R_OK)
       else (st, R_INVALID)
+  | AddHeaders n =>
+      (* headers, however often and however long: every column that exists keeps
+         existing and keeps its map; columns that come into being start empty *)
+      (mkS (s_grow st n (s_map st)) (Nat.max (s_ncols st) n) (s_rows st) (s_ndets st) (s_handles st), R_OK)
+  | Touch ow =>
+      (* not a set: nobody's map changes *)
+      match canon st ow with
+      | None => (st, R_INVALID)
+      | Some _ => (st, R_OK)
+      end
+  | NewCellOf ow =>
+      if s_is_cell ow then
+        match canon st ow with
+        | None => (st, R_INVALID)
+        | Some _ => (mkS (s_put (s_map st) (ODet (s_ndets st)) a_empty) (s_ncols st) (s_rows st) (S (s_ndets st)) (s_handles st), R_OK)
+        end
+      else (st, R_INVALID)
   end.
 
 Definition s_entry (st : sstate) (U : list key) (o : owner) : option (nat * list nat) :=
